@@ -177,10 +177,32 @@ fn exp(x: Decimal) -> EvalResult {
 }
 
 fn sqrt(x: Decimal) -> EvalResult {
-    match x.sqrt() {
-        Some(result) => Ok(result),
-        None => Err("Unable to compute the square root of negative number".into()),
+    if x.is_sign_negative() {
+        return Err("Unable to compute the square root of negative number".into());
     }
+    if x.is_zero() {
+        return Ok(Decimal::ZERO);
+    }
+    // Babylonian iteration, as in rust_decimal's own sqrt(), which however asserts that the iterates
+    // become equal and panics ("geo mean circuit breaker") when they end up alternating between two
+    // neighbouring values, e.g. for 6277101735386680763835789423. Stop on such a 2-cycle as well.
+    let two = Decimal::new(2, 0);
+    let mut result = x / two;
+    if result.is_zero() {
+        result = x;
+    }
+    let mut last = result.checked_add(Decimal::new(1, 0)).ok_or("Decimal overflow")?;
+    let mut before_last = last;
+    for _ in 0..1000 {
+        if last == result || before_last == result {
+            break;
+        }
+        before_last = last;
+        last = result;
+        let quotient = x.checked_div(result).ok_or("Decimal overflow")?;
+        result = result.checked_add(quotient).ok_or("Decimal overflow")? / two;
+    }
+    Ok(result)
 }
 
 fn root(n_th: Decimal, x: Decimal) -> EvalResult {
